@@ -441,8 +441,24 @@ pub fn judge(ctx: &mut Ctx, w: &mut RtWorld, cfg: &Config, outcome: &Outcome, re
     match outcome {
         Outcome::Cancelled => {}
         Outcome::Timeout => {
-            ctx.violate("returns", "virtual-timeout".into(), format!("poll_chunks had not returned after {} virtual seconds ({} deliveries; stop sent: {:?}; consumer dropped: {:?}; history ended: {})", cfg.cap_virtual_s, n, w.stop_sent_at, w.chunk_rx_dropped_at, w.history_ended));
-            return;
+            // The virtual cap is a bound of the harness, not of the property: a session that is
+            // still making progress and has been given no reason to end (no stop, no dropped
+            // receiver, uploads continuing) is simply cut off there and judged on its prefix. It is
+            // a violation only when the poller sat on a reason to return for longer than the
+            // liveness bound.
+            let cause_ms = [w.stop_sent_at.map(|x| x.1), w.chunk_rx_dropped_at.map(|x| x.1), w.stats_rx_dropped_at.map(|x| x.1)].iter().flatten().copied().min();
+            let quiet_since = w.last_event_ms - s3sim::EPOCH_MS;
+            let skew = cfg.skew_before_ms.abs().max(cfg.skew_after_ms.abs());
+            let bound = skew + w.longest_gap_ms + 600_000 + cfg.faults.latency_max_ms as i64 * 40;
+            let stuck = returned_at_ms - quiet_since > bound;
+            // (a stop / drop / end of history shortly before the cap is not yet a reason to blame the poller:
+            // all of them refresh `last_event_ms`, so `stuck` covers them)
+            let _ = cause_ms;
+            if stuck {
+                ctx.violate("returns", "virtual-timeout".into(), format!("poll_chunks had not returned after {} virtual seconds ({} deliveries; stop sent: {:?}; consumer dropped: {:?}; history ended: {}; {} ms since the last upload/delivery/fault)", cfg.cap_virtual_s, n, w.stop_sent_at, w.chunk_rx_dropped_at, w.history_ended, returned_at_ms - quiet_since));
+                return;
+            }
+            ctx.count("session_cut_by_virtual_cap");
         }
         Outcome::Ok => {
             ctx.count("returned_ok");
